@@ -173,6 +173,12 @@ def classify(chk: Check, verdicts, case_fn, model_verdicts=None):
 
 
 def check_trees(chk: Check, drv: Driver, trees, kind: str, n_envs: int, peep_cmd: str):
+    """chunked so that request/reply lists stay small (the thorough tier walks several 10^5 trees)"""
+    for i in range(0, len(trees), 8000):
+        _check_trees(chk, drv, trees[i : i + 8000], kind, n_envs, peep_cmd)
+
+
+def _check_trees(chk: Check, drv: Driver, trees, kind: str, n_envs: int, peep_cmd: str):
     from tensora.ir._peephole import peephole_expression, peephole_statement
 
     rng = chk.rng
@@ -360,7 +366,7 @@ def run(chk: Check, drv: Driver):
     check_trees(chk, drv, ints + floats + bools + depth1, "expr", n_envs, "PEEPE")
     chk.count("depth1_exhaustive", len(depth1))
     # deeper
-    n2 = 1600 if chk.tier == "quick" else 40000
+    n2 = 1600 if chk.tier == "quick" else 16000
     i2, f2, b2 = grow(ints + i1, floats + f1, bools + b1, rng, n2)
     check_trees(chk, drv, i2 + f2 + b2, "expr", n_envs, "PEEPE")
     i3, f3, b3 = grow(ints + i1 + i2[:500], floats + f1 + f2[:500], bools + b1 + b2[:500], rng, n2 // 4)
@@ -378,8 +384,7 @@ def run(chk: Check, drv: Driver):
                 ex.append(op(l, r))
         for l, r in itertools.chain(itertools.product(b1, bools), itertools.product(bools, b1)):
             ex += [ir.And(l, r), ir.Or(l, r)]
-        for i in range(0, len(ex), 20000):
-            check_trees(chk, drv, ex[i : i + 20000], "expr", 4, "PEEPE")
+        check_trees(chk, drv, ex, "expr", 3, "PEEPE")
         chk.count("depth2_one_leaf_exhaustive", len(ex))
     # statements
     ns = 2500 if chk.tier == "quick" else 30000
